@@ -148,17 +148,18 @@ class Check:
         for r in results[:60]:
             samples.append({
                 "harness": r.job.jid, "what": r.job.desc, "bound": r.job.bound, "status": r.status,
-                "reason": r.reason, "cbmc_checks": r.checks, "covers": f"{r.covers_sat}/{r.covers_total}",
+                "reason": r.reason, "cbmc_checks": r.checks, "covers": f"{r.covers_sat}/{r.covers_total}", "covers_unsatisfied": r.covers_unsat,
                 "kani_s": round(r.verif_time, 1), "wall_s": round(r.wall, 1), "peak_rss_mb": r.peak_rss_mb,
                 "solver": r.vcc, "expect": r.job.expect,
             })
         cov = {
             "evaluations": len(results),
-            "distinct_nontrivial": len({r.job.jid for r in ok_jobs}),
+            "distinct_nontrivial": len({r.job.jid for r in ok_jobs if not r.covers_unsat}),
             "rule": self.rule,
             "samples": samples,
             "harnesses_total": len(results),
-            "harnesses_successful_all_covers": len(ok_jobs),
+            "harnesses_successful": len(ok_jobs),
+            "harnesses_successful_every_cover_witness_satisfied": len([r for r in ok_jobs if not r.covers_unsat]),
             "queries_total": checks,
             "queries_discharged": discharged,
             "kani_seconds_total": round(sum(r.verif_time for r in results), 1),
